@@ -37,6 +37,7 @@ type Options struct {
 	// BoundIsViolation: a path that exhausts its budget is a candidate
 	// non-termination (C16); it is recorded with its model for native replay.
 	BoundIsViolation bool
+	PathSeconds      int // wall-clock limit per path (0 = none)
 }
 
 type World struct {
@@ -347,6 +348,9 @@ func (w *World) newPathState(wk *worker, prefix []int, opt Options) *pathState {
 		maxSteps:   opt.MaxSteps, maxDepth: opt.MaxDepth,
 		failRead: map[string]bool{}, failWrite: map[string]bool{},
 		oracle: opt.Oracle, forcedPerm: -1,
+	}
+	if opt.PathSeconds > 0 {
+		ps.pathDeadline = time.Now().Add(time.Duration(opt.PathSeconds) * time.Second)
 	}
 	if ps.maxSteps <= 0 {
 		ps.maxSteps = 20_000_000
